@@ -49,6 +49,35 @@ def ev(f, e, env, locals_=None, depth=0):
         tv = tf2(e, env)
         if tv is not None:
             return wrap(tv, t)
+    if k == "ArraySubscriptExpr" and len(c) == 2:
+        # TABLE[i] of a constant character table (a local / global `static const char t[] = "...";`)
+        base = facts.strip_all(c[0])
+        init = None
+        if base["k"] == "DeclRefExpr" and base.get("var"):
+            gl = None
+            if base.get("glob"):
+                db_ = env.get("__db__") or facts.db_of(f)
+                gl = db_.globals.get(base["var"]) if db_ is not None else None
+                init = (gl or {}).get("init") if (gl or {}).get("const") else None
+            if gl is None:          # a local (function-level statics have global storage but live in the function)
+                for n_ in facts.fn_nodes(f):
+                    if n_["k"] == "VarDecl" and n_.get("var") == base["var"] and n_.get("c"):
+                        init = n_["c"][0]
+                    if n_["k"] in ("BinaryOperator", "CompoundAssignOperator") and n_.get("op", "").endswith("=") and \
+                            n_["op"] not in ("==", "!=", "<=", ">=") and any(
+                                y["k"] == "DeclRefExpr" and y.get("var") == base["var"] for y in facts.walk(n_["c"][0])):
+                        raise Unknown("table %s is written to" % base.get("name"))
+        elif base["k"] == "StringLiteral":
+            init = base
+        i0 = facts.strip_all(init) if init is not None else None
+        if i0 is not None and i0["k"] == "StringLiteral" and isinstance(i0.get("str"), str):
+            i_ = ev(f, c[1], env, locals_, depth + 1)
+            txt = i0["str"]
+            if i_ == len(txt):
+                return 0
+            if not (0 <= i_ < len(txt)):
+                raise Undefined("index %d outside the %d-character table %s" % (i_, len(txt), base.get("name")))
+            return wrap(ord(txt[i_]), t)
     if k == "MemberExpr" and e.get("isfield") and c and strip(c[0])["k"] == "ArraySubscriptExpr":
         # ARR[i].field of a constant global array of records
         sub = strip(c[0])
